@@ -118,7 +118,7 @@ Lemma run_sound f0 name : forall p g n r,
   forall s, unchanged f0 (fs s) -> post f0 name n r (run name p s).
 Proof.
   induction p as [|a IHa b IHb|e|e|e|a IHa b IHb|body IH|body IH| | |e|ea eb
-                  |a IHa b IHb|a IHa b IHb];
+                  |a IHa b IHb|a IHa b IHb|e];
     intros g n r Hc Hg s Hu; simpl in Hc.
   - (* Skip *) inversion Hc; subst. simpl. split; [exact Hu|]. split; [|discriminate].
     intros _. exists g; split; [reflexivity|exact Hg].
@@ -214,11 +214,18 @@ Proof.
     inversion Hc; subst n r. simpl.
     specialize (IHa g na ra Ea Hg s Hu).
     destruct (run name a s) as [o s'] eqn:Er. destruct IHa as [Hu' [Hn Hr]]. simpl in *.
+    assert (HH : forall s1, unchanged f0 (fs s1) ->
+                 post f0 name (meet na nb) (meet ra rb) (run name b s1)).
+    { intros s1 Hu1. destruct (IHb g nb rb Eb Hg s1 Hu1) as [H1 [H2 H3]].
+      split; [exact H1|]. split; intro H; [apply osafe_meet_r, H2, H|apply osafe_meet_r, H3, H]. }
     destruct o.
-    + split; [exact Hu'|]. split; [|discriminate]. intros _. apply osafe_meet_l, Hn, eq_refl.
+    + destruct (orc s') as [|c rest].
+      * split; [exact Hu'|]. split; [|discriminate]. intros _. apply osafe_meet_l, Hn, eq_refl.
+      * destruct (Nat.eqb c 0).
+        -- split; [exact Hu'|]. split; [|discriminate]. intros _. apply osafe_meet_l, Hn, eq_refl.
+        -- apply HH. exact Hu'.
     + split; [exact Hu'|]. split; [discriminate|]. intros _. apply osafe_meet_l, Hr, eq_refl.
-    + destruct (IHb g nb rb Eb Hg s' Hu') as [H1 [H2 H3]].
-      split; [exact H1|]. split; intro H; [apply osafe_meet_r, H2, H|apply osafe_meet_r, H3, H].
+    + apply HH, Hu'.
   - (* Finally *)
     destruct (check g a) as [[na ra]|] eqn:Ea; [|discriminate].
     destruct (check g b) as [[nb rb]|] eqn:Eb; [|discriminate].
@@ -234,6 +241,10 @@ Proof.
       * apply osafe_meet_l, Hr, H.
     + split; [discriminate|]. intros _. apply osafe_meet_r, Hr2, eq_refl.
     + split; discriminate.
+  - (* Probe *) inversion Hc; subst. simpl.
+    destruct (tick s) as [s0|] eqn:Et; [|split; [exact Hu|]; split; discriminate].
+    apply tick_fs in Et. rewrite <- Et in Hu. simpl.
+    split; [exact Hu|]. split; [|discriminate]. intros _. exists g; split; [reflexivity|exact Hg].
 Qed.
 
 (* Every file that existed before the call is byte-for-byte what it was,
@@ -377,3 +388,33 @@ Proof.
           else (peval name (PAddExt ext p) ++ ("." ++ ext))%string).
   rewrite H. reflexivity.
 Qed.
+
+(* ---- exceptions inside a try body reach the handler ---- *)
+(* the exception strikes at the third file event, inside the body; the handler
+   then runs to its end (it is not hit again) *)
+Example strike_inside_try_runs_handler :
+  let p := Seq (Guard PName) (Try (Seq (Create PName) (Append PName))
+                                  (Seq (Delete PName) Raise)) in
+  let '(o, s1) := run "res" p (init_stf (fs_of_list []) [] (Some 2)) in
+  (outcome_code o, rev (trace s1), fs s1 "res") = (1, ["G res"; "C res"; "D res"]%string, None).
+Proof. vm_compute. reflexivity. Qed.
+
+(* ... and so does one that strikes after the last file event of the body
+   (oracle 1), while oracle 0 leaves the body normally *)
+Example late_exception_in_try :
+  let p := Seq (Guard PName) (Try (Create PName) (Seq (Delete PName) Raise)) in
+  (let '(o, s1) := run "res" p (init_st (fs_of_list []) [1]) in (outcome_code o, rev (trace s1)))
+  = (1, ["G res"; "C res"; "D res"]%string) /\
+  (let '(o, s1) := run "res" p (init_st (fs_of_list []) [0]) in (outcome_code o, rev (trace s1)))
+  = (0, ["G res"; "C res"]%string).
+Proof. split; vm_compute; reflexivity. Qed.
+
+(* "remove it if it is there" in a handler: looking does not make the removal safe *)
+Example probe_then_delete_bad :
+  let p := Call (Try (Seq (Guard (PSuffix ".msh" PName)) (Seq (Create (PSuffix ".msh" PName))
+                      (Guard (PSuffix ".cnt" PName))))
+                     (Seq (Probe (PSuffix ".cnt" PName))
+                          (Seq (If (Delete (PSuffix ".cnt" PName)) Skip) Raise))) in
+  prog_ok p = false /\
+  observe "res" p ["res.cnt"%string] [1] = (1, ["res.cnt"%string], ["res.msh"%string]).
+Proof. split; vm_compute; reflexivity. Qed.
